@@ -21,6 +21,7 @@ package firewall
 import (
 	"errors"
 	"fmt"
+	"math/big"
 	"sync"
 	"testing"
 	"time"
@@ -196,12 +197,19 @@ func TestVerif_C21_Replay(t *testing.T) {
 	defer rep.Write(t)
 	cases := kit.LoadCases(t, "behaviours.ndjson")
 	keys := map[string]*operator.PublicKey{}
-	for _, p := range []string{"a", "b", "c"} {
+	for _, p := range []string{"a", "b"} {
 		_, pk, err := operator.GenerateKeyPair(local_v1.DefaultCurve)
 		if err != nil {
 			t.Fatal(err)
 		}
 		keys[p] = pk
+	}
+	// peer c holds the mirror key (x, -y) of peer a: another operator, same X coordinate
+	// (the compressed forms differ in the 02/03 prefix only)
+	keys["c"] = &operator.PublicKey{Curve: keys["a"].Curve, X: new(big.Int).Set(keys["a"].X),
+		Y: new(big.Int).Sub(local_v1.DefaultCurve.Params().P, keys["a"].Y)}
+	if keys["c"].String() == keys["a"].String() || !local_v1.DefaultCurve.IsOnCurve(keys["c"].X, keys["c"].Y) {
+		t.Fatalf("fixture: mirror key")
 	}
 	units := []time.Duration{40 * time.Millisecond, 100 * time.Millisecond, 250 * time.Millisecond}
 	if u := kit.IntEnv("VERIF_UNIT_MS", 0); u > 0 {
